@@ -487,7 +487,17 @@ func vhReplay(tb testing.TB, hist []vhOp) *vhRun {
 				m.PendingLocal, m.PendingRemote, m.CurrentLocal, m.CurrentRemote = obs.PL, obs.PR, obs.CL, obs.CR
 				m.Events = append(m.Events, obs.State)
 			} else {
-				m.apply(op, sdpText)
+				// W3C setLocalDescription: an empty sdp stands for the last created offer / answer (the harness passes
+				// an empty text when CreateOffer / CreateAnswer itself failed in the state the history reached)
+				wantText := sdpText
+				if op.Side == "L" && sdpText == "" {
+					if op.Type == "offer" {
+						wantText = m.lastOfferCreated
+					} else if op.Type == "answer" || op.Type == "pranswer" {
+						wantText = m.lastAnswerCreated
+					}
+				}
+				m.apply(op, wantText)
 				if obs.State != target {
 					add("C01", "wrong-target|"+opKey, fmt.Sprintf("history %v: %s from %s led to %s, want %s", hist[:i+1], op, before.State, obs.State, target))
 				}
